@@ -723,6 +723,42 @@ var c30Scenarios = []c30Scenario{
 		_, failed, _ := rt.stats()
 		rt.achieved = failed >= 1
 	}},
+	{"send-time-owner-then-rollback", 3, func(rt *c30RT) {
+		// sender 1 on A claims the grain and is held inside an OnActivate that will fail; sender 2
+		// on A does its send-time owner lookup (the record names A) and is held right after it;
+		// sender 1's activation fails and its claim is rolled back; B claims and activates; only
+		// then does sender 2 continue towards the activation path on A
+		mode := []string{"err", "panic"}[rt.rng.Intn(2)]
+		rt.failOn(rt.A(), 1, mode)
+		g1 := rt.actGate(rt.A())
+		s1 := rt.send(rt.A(), c30SendKind(rt.rng))
+		if !rt.arrived(g1, s1) {
+			rt.note("OnActivate gate on A not reached")
+			return
+		}
+		// A's lookups so far: sender 1's send-time GetGrain (not found); the next one is sender 2's
+		r2, g2 := rt.gateRule(rt.A(), "GetGrain", true, 2)
+		s2 := rt.send(rt.A(), c30SendKind(rt.rng))
+		if !rt.arrived(g2, s2) {
+			rt.note("gate after sender 2's send-time GetGrain on A not reached")
+			return
+		}
+		sawA := rt.recordOwner() == rt.A()
+		g1.Release()
+		if !rt.wait(s1) {
+			return
+		}
+		rolledBack := rt.until(func() bool { return rt.recordOwner() == -1 })
+		b := rt.send(rt.B(), c30SendKind(rt.rng))
+		if !rt.wait(b) {
+			return
+		}
+		bActive := rt.activeOn(rt.B()) && rt.recordOwner() == rt.B()
+		g2.Release()
+		rt.wait(s2)
+		_, failed, _ := rt.stats()
+		rt.achieved = r2.Fired() && sawA && rolledBack && bActive && failed >= 1
+	}},
 	{"publish-fail-after-claim", 3, func(rt *c30RT) {
 		// A claims and activates, then its registry publication (PutGrain) fails: rollback
 		r, g := rt.gateRule(rt.A(), "PutGrain", false, 1)
